@@ -12,7 +12,8 @@
  *                             resume_task::execute and continues the suspended task on W; afterwards (RECALL=1) the
  *                             borrowed stack is given back through recall_point / recall_owner and T returns to its own stack
  *                   CRIT 1: the suspending dispatcher is inside a critical task (resume task goes to the critical stream)
- *                   ROUNDS free scheduling rounds, SETTLE forced rounds before the probe round
+ *                   ROUNDS free scheduling rounds, SETTLE forced rounds before the probe round (or PLAN: explicit sequence)
+ *                   NCYC 2: the task suspends twice
  */
 #include "w.h"
 #include "vp.h"
@@ -103,8 +104,8 @@ void vp_home(u32 stack) {      /* recall_point() returned on stack 0 */
 /* arena::my_resume_task_stream.push / my_critical_task_stream.push: counting stub (the stream itself: C01) */
 static void stream_push(TASK* t, int critical) {
   VP_ASSERT(t == vp_resume_task_of(sp[0]), "only the resume task of the suspended point is published");
-  VP_ASSERT(resume_called > pushed, "C20: resume task published although tbb::task::resume was not called");
   VP_ASSERT(pushed == continued, "C20: resume task published twice (double continuation)");
+  VP_ASSERT(resume_called > pushed, "C20: resume task published although tbb::task::resume was not called");
   VP_ASSERT(critical == CRIT, "resume task goes to the critical stream iff the target is inside a critical task");
   VP_ASSERT(vp_arena_refs() >= base_refs + vp_ref_worker(), "the publisher holds an arena reference while it publishes");
   pushed++; pushed_by = (int)vp_cur; vp_changed = 1;      /* vp_cur: model thread that runs (0 stack 0, 1 coroutine, 2 resumer, 3 W) */
@@ -221,8 +222,13 @@ int main(void) {
 #if WORKER
   vp_thr_w_start(disp[2]);
 #endif
+#ifdef PLAN
+  /* explicit round plan, decimal digits read from the right: 1 = free round (solver-chosen context switches), 2 = forced round */
+  for (unsigned plan = PLAN; plan; plan /= 10) { if (plan % 10 == 1) { THREADS(X_RUN) } else { THREADS(X_MAX) } }
+#else
   for (int r = 0; r < ROUNDS; r++) { THREADS(X_RUN) }
   for (int r = 0; r < SETTLE; r++) { THREADS(X_MAX) }
+#endif
   int all_stuck_before = 1 THREADS(X_STUCK); vp_changed = 0;
   THREADS(X_MAX)
   int all_stuck_after = 1 THREADS(X_STUCK);
